@@ -196,8 +196,50 @@ def replay_listen_kinds(inputs, obl):
             n = k('cnt')
             if text != 'null' and n != 1:
                 problems.append(f"frame {text}: the .ws.m handler body ran {n} time(s), expected once")
+        # a handler that fails on one message: the failure is that message's; the next frame is still handled
+        k('.ws.m::{x;:[y~"boom";.undefinedfn(1);0];cnt::cnt+1;0}')
+        k('cnt::0')
+        c = NetworkClient(io_loop, klong_loop, k, None)
+        escaped = []
+        for text in ('"boom"', '"fine"'):
+            c.websocket = WS(text)
+            try:
+                asyncio.run_coroutine_threadsafe(c._listen(None), io_loop).result(10)
+            except Exception as e:
+                escaped.append(f"{type(e).__name__}")
+        if escaped:
+            problems.append(f"frames \"boom\" (handler fails) then \"fine\": {escaped[0]} escaped _listen - in _run that ends the connection loop and "
+                            f"every later message is lost")
+        elif k('cnt') != 1:
+            problems.append(f"frames \"boom\" then \"fine\": the handler body completed {k('cnt')} time(s), expected once (for \"fine\")")
     finally:
         cleanup_repl(loops)
     if problems:
         return dict(confirmed=True, detail='; '.join(problems[:4]))
-    return dict(confirmed=False, detail=f"{len(kinds)} JSON kinds of frame: each reached on_message and .ws.m exactly once")
+    return dict(confirmed=False, detail=f"{len(kinds)} JSON kinds of frame: each reached on_message and .ws.m exactly once; a failing handler is contained")
+
+
+def ws_send_kinds():
+    """a value sent through a websocket connection arrives as its JSON encoding: the real encode_message on the kinds of value a Klong
+    program produces - literals AND computed values (NumPy scalars), arrays, nested lists, strings, dictionaries (-> list of (kind, ok, detail))"""
+    import json
+    import warnings
+    warnings.simplefilter('ignore')
+    from klongpy import KlongInterpreter
+    from klongpy.ws.sys_fn_ws import encode_message
+    k = KlongInterpreter()
+    cases = [('literal-int', '7', 7), ('computed-int', '1+2', 3), ('sum-of-list', '+/[1 2 3]', 6), ('list-member', '[4 5 6]@1', 5),
+             ('literal-real', '2.5', 2.5), ('computed-real', '1.5+1', 2.5), ('comparison', '3>2', 1), ('int-list', '[1 2 3]', [1, 2, 3]),
+             ('computed-list', '1+[1 2]', [2, 3]), ('nested-list', '[1 [2 3] "a"]', [1, [2, 3], 'a']), ('string', '"hi"', 'hi'),
+             ('dictionary', ':{["a" 1]}', {'a': 1}), ('dictionary-with-computed-value', 'd:::{};d,"n",,1+2;d', {'n': 3}),
+             ('list-of-computed', '(1+1),(2+2)', [2, 4])]
+    out = []
+    for name, src, want in cases:
+        try:
+            v = k(src)
+            got = json.loads(encode_message(v))
+            ok = got == want and type(got) is type(want)
+            out.append((name, ok, f"{src} is sent as {json.dumps(got)}" + ('' if ok else f", expected {json.dumps(want)}")))
+        except Exception as e:
+            out.append((name, False, f"{src}: encode_message raised {type(e).__name__}: {str(e)[:80]} - nothing is sent"))
+    return out
